@@ -176,7 +176,20 @@ def _run_system(item):
     res = dict(kind="system", date=item["date"], rows=0, rules=0, violations=[], rule_names=[],
                pop=popgen.digest(df), int_first_row=0)
     try:
-        tr, nodes, roots, dag, fn = env.trace(df, params, functions, rounding=False)
+        if item["k"] % 2 == 1:
+            # debug mode on a table with its own index labels: the returned frame holds inputs and computed columns;
+            # every computed value must be the rule applied to the inputs IN ITS OWN ROW of that frame
+            dfl = df.copy()
+            dfl.index = rng.permutation(len(df)) if item["k"] % 4 == 1 else np.arange(len(df)) + 10
+            nodes, roots, dag, fn = env.graph(functions, list(df.columns))
+            tr = env.simulate(dfl, params, functions, nodes, rounding=False, debug=True)
+            if len(tr) != len(df):
+                res["violations"].append(dict(key="debug:rows", what=f"debug=True returns {len(tr)} rows for {len(df)} input rows", date=item["date"]))
+                return res
+            tr = tr.reset_index(drop=True)
+            res["debug_frames"] = 1
+        else:
+            tr, nodes, roots, dag, fn = env.trace(df, params, functions, rounding=False)
     except Exception as e:  # noqa: BLE001 - completeness is C08's business; here the run just yields nothing to compare
         res["system_run_raised"] = f"{type(e).__name__}: {str(e)[:120]}"
         res["sample"] = popgen.describe(df)
@@ -306,6 +319,7 @@ def summarize(results, tier, seed):
              "compared bit-exactly against the scalar rule, plus distinct system populations",
         rules_total=len(all_rules), rules_exercised_single=len(exercised),
         rules_exercised_system=len(sys_rules),
+        system_runs_through_debug_frame=sum(r.get("debug_frames", 0) for r in system),
         rules_never_exercised={k: why[k] for k in never[:60]},
         rows_compared=sum(r["rows"] for r in ok),
         rule_columns_compared=sum(r["rules"] for r in ok),
